@@ -720,9 +720,15 @@ func IsValidFilter(filter string, forPublish bool) bool {
 		}
 	}
 
-	wildhash := strings.IndexRune(filter, '#')
-	if wildhash >= 0 && wildhash != len(filter)-1 { // [MQTT-4.7.1-2]
-		return false
+	levels := strings.Split(filter, "/")
+	for i, level := range levels {
+		if strings.ContainsRune(level, '#') && (len(level) != 1 || i != len(levels)-1) {
+			return false // [MQTT-4.7.1-2] '#' must occupy the entire last level
+		}
+
+		if strings.ContainsRune(level, '+') && len(level) != 1 {
+			return false // [MQTT-4.7.1-3] '+' must occupy an entire level
+		}
 	}
 
 	prefix, hasNext := isolateParticle(filter, 0)
@@ -736,8 +742,12 @@ func IsValidFilter(filter string, forPublish bool) bool {
 			return false // [MQTT-4.8.2-1]
 		}
 
-		if strings.ContainsRune(group, '+') || strings.ContainsRune(group, '#') {
-			return false // [MQTT-4.8.2-2]
+		if len(group) == 0 || strings.ContainsRune(group, '+') || strings.ContainsRune(group, '#') {
+			return false // [MQTT-4.8.2-1] [MQTT-4.8.2-2]
+		}
+
+		if len(filter) <= len(prefix)+len(group)+2 {
+			return false // [MQTT-4.8.2-1] a topic filter must follow the share name
 		}
 	}
 
